@@ -47,9 +47,23 @@ fn enable_logs() {
 // wrap up some common functionality between the call from 'main' and AT
 fn cleanup_mathml(mathml: Element) -> Result<Element> {
     trim_element(&mathml);
+    // an id of the input must not be given to another element, also when canonicalization drops or merges the element that had it
+    let mut ids_in_input = Vec::new();
+    gather_ids(mathml, &mut ids_in_input);
     let mathml = crate::canonicalize::canonicalize(mathml)?;
-    let mathml = add_ids(mathml);
+    let mathml = add_ids(mathml, &ids_in_input);
     return Ok(mathml);
+
+    fn gather_ids(mathml: Element, ids: &mut Vec<String>) {
+        if let Some(id) = mathml.attribute_value("id") {
+            ids.push(id.to_string());
+        }
+        for child in mathml.children() {
+            if let Some(child) = child.element() {
+                gather_ids(child, ids);
+            }
+        }
+    }
 }
 
 thread_local! {
@@ -544,7 +558,7 @@ pub fn errors_to_string(e: &Error) -> String {
     return result;
 }
 
-fn add_ids(mathml: Element) -> Element {
+fn add_ids<'a>(mathml: Element<'a>, ids_in_input: &[String]) -> Element<'a> {
     use std::time::SystemTime;
     let time = if cfg!(target_family = "wasm") {
         rand::random::<usize>()
@@ -562,7 +576,7 @@ fn add_ids(mathml: Element) -> Element {
     let random_part = match crate::verif_hooks::env() { Some(env) => radix_fmt::radix(env.random_usize(), 36).to_string(), None => random_part };
     let prefix = "M".to_string() + &time_part[time_part.len() - 3..] + &random_part[random_part.len() - 4..] + "-"; // begin with letter
     // the input might be MathML that MathCAT returned earlier, so it could already have ids with this prefix (they must be skipped)
-    let mut ids_with_prefix = Vec::new();
+    let mut ids_with_prefix = ids_in_input.iter().filter(|id| id.starts_with(&prefix)).cloned().collect::<Vec<String>>();
     gather_ids_with_prefix(mathml, &prefix, &mut ids_with_prefix);
     add_ids_to_all(mathml, &prefix, &ids_with_prefix, 0);
     return mathml;
